@@ -8,8 +8,8 @@ from props import base
 from props.base import Context  # noqa: F401
 
 PID = 'C20'
-TIE_MODULES = []
-NEEDS = []
+TIE_MODULES = ['DiffxVerif.Tie.RegexLexer']
+NEEDS = ['re_lexer']
 ASSUMPTIONS = [
     "Pygments' RegexLexer engine and its stock JsonLexer / DiffLexer are third-party environment: the engine is modelled by Lexer.lexGo, the sub-lexers are parameters assumed lossless (that assumption is tested on the same inputs with the real sub-lexers)",
     'for the correspondence the sub-lexers are replaced by an opaque one-token lexer so that only the DiffX rule table is compared',
